@@ -108,6 +108,10 @@ func rewriteFile(path string) (nsel, ngo int, changed bool) {
 			imp.Path.Value = strconv.Quote(atomicPath)
 			imp.Name = ast.NewIdent(name)
 			changed = true
+		case "golang.org/x/sync/errgroup", "golang.org/x/sync/semaphore", "golang.org/x/sync/singleflight":
+			// these start or park goroutines behind the scheduler's back: code run by them would use the
+			// managed primitives from a goroutine the scheduler does not know
+			problem(fset, imp.Pos(), "package %s is not supported by the managed scheduler (unmanaged goroutines / blocking)", p)
 		case "time":
 			rw.timeName = "time"
 			if imp.Name != nil {
@@ -123,22 +127,21 @@ func rewriteFile(path string) (nsel, ngo int, changed bool) {
 		}
 		rw.block(fd.Body)
 	}
-	// expressions: time.After -> detsync.After, close(x) -> detsync.Close(x)
+	// expressions: time.After/Sleep/NewTimer/NewTicker/Tick/AfterFunc and the types time.Timer/time.Ticker
+	// -> their managed counterparts (virtual time), close(x) -> detsync.Close(x)
 	ast.Inspect(f, func(n ast.Node) bool {
+		if sel, ok := n.(*ast.SelectorExpr); ok && rw.timeName != "" {
+			if id, ok := sel.X.(*ast.Ident); ok && id.Name == rw.timeName && id.Obj == nil {
+				switch sel.Sel.Name {
+				case "After", "Sleep", "NewTimer", "NewTicker", "Tick", "AfterFunc", "Timer", "Ticker":
+					sel.X = ast.NewIdent("detsync")
+					rw.needDet = true
+				}
+			}
+		}
 		call, ok := n.(*ast.CallExpr)
 		if !ok {
 			return true
-		}
-		if sel, ok := call.Fun.(*ast.SelectorExpr); ok && rw.timeName != "" {
-			if id, ok := sel.X.(*ast.Ident); ok && id.Name == rw.timeName && id.Obj == nil {
-				switch sel.Sel.Name {
-				case "After":
-					sel.X = ast.NewIdent("detsync")
-					rw.needDet = true
-				case "Sleep", "NewTimer", "NewTicker", "Tick", "AfterFunc":
-					problem(fset, call.Pos(), "time.%s is not supported by the managed scheduler", sel.Sel.Name)
-				}
-			}
 		}
 		if id, ok := call.Fun.(*ast.Ident); ok && id.Name == "close" && id.Obj == nil && len(call.Args) == 1 {
 			call.Fun = &ast.SelectorExpr{X: ast.NewIdent("detsync"), Sel: ast.NewIdent("Close")}
